@@ -22,6 +22,15 @@ template <class C> void Exec<C>::exec_op(int i) {
         if (s < 0 || s >= N_USLOTS || us[s].state == S_EMPTY) break;
         o.skipped = false;
         event("op %d free u%d state=%d", i, s, us[s].state);
+        if (mgr_of(op.mgr).kind == MK_INCOMPLETE && us[s].state == S_VALID) {
+            // the release call itself must reject an incomplete manager before touching anything
+            MgrInst& im = mgr_of(op.mgr); Uri* u = us[s].u; std::string before = snapshot(u); volatile int rc = 0;
+            if (!call(i, s, op.mgr, FaultPlan(), [&] { rc = A::FreeUriMembersMm(u, im.table); })) { o.aborted = true; break; }
+            if (rc != URI_ERROR_MEMORY_MANAGER_INCOMPLETE) violate(V_ALLOC_BEFORE_REJECT, "uriFreeUriMembersMm with an incomplete manager returned " + std::to_string(rc), false);
+            if (outs_tmp_reqs || outs_tmp_frees || snapshot(u) != before) violate(V_ALLOC_BEFORE_REJECT, "uriFreeUriMembersMm with an incomplete manager touched the URI or the manager before rejecting it", false);
+            o.digest = "rejected";
+            break;
+        }
         mark_dependents_stale(s);
         if (!free_slot(i, s, op.entry, 1 + op.refree)) { o.aborted = true; break; }
         us[s].state = S_FREED; us[s].owned = false; us[s].texts.clear(); us[s].deps.clear();
@@ -79,6 +88,7 @@ template <class C> void Exec<C>::exec_op(int i) {
     default: break;
     }
     if (g.abort_run) o.aborted = true;
+    if (!o.skipped && !o.aborted) verify_texts("after the operation");
     if (!o.skipped && !o.aborted) {
         if (op.lose && loss_enabled && op.a >= 0 && op.a < N_USLOTS && us[op.a].state == S_VALID) lose_sources(op.a);
         if (after_op && g.violations.size() == nviol) after_op(*this, i);
